@@ -1,7 +1,182 @@
-use serde_json::Value;
+//! Adapters for string-valued protocol enums (C19).
 
-use crate::OpResult;
+use std::fmt::Display;
 
-pub fn dispatch(_op: &str, _cmd: &Value) -> Option<OpResult> {
-    None
+use serde::{de::DeserializeOwned, Serialize};
+use serde_json::{json, Value};
+
+use crate::{s, OpResult};
+
+/// Conversions of every input string + pairwise equality (+ ordering when `cmp` is given).
+fn conv<T>(
+    strings: &[String],
+    from: impl Fn(&str) -> T,
+    to: impl Fn(&T) -> String,
+    cmp: Option<&dyn Fn(&T, &T) -> i8>,
+) -> Value
+where
+    T: Display + Serialize + DeserializeOwned + PartialEq,
+{
+    let vals: Vec<T> = strings.iter().map(|x| from(x)).collect();
+    let items: Vec<Value> = strings
+        .iter()
+        .zip(&vals)
+        .map(|(st, v)| {
+            let text = to(v);
+            let js = serde_json::to_string(v).unwrap_or_else(|e| format!("<<ser error {e}>>"));
+            let de = serde_json::from_str::<T>(&serde_json::to_string(st).unwrap());
+            json!({
+                "as_str": text,
+                "display": v.to_string(),
+                "json": js,
+                "de": match &de { Ok(d) => json!({"ok": to(d)}), Err(e) => json!({"err": e.to_string()}) },
+                "de_eq_from": de.as_ref().map(|d| d == v).unwrap_or(false),
+                "idem": to(&from(&text)),
+                "idem_eq": from(&text) == *v,
+            })
+        })
+        .collect();
+    let n = vals.len().min(40);
+    let eq: Vec<Vec<bool>> =
+        (0..n).map(|i| (0..n).map(|j| vals[i] == vals[j]).collect()).collect();
+    let ord: Option<Vec<Vec<i8>>> =
+        cmp.map(|c| (0..n).map(|i| (0..n).map(|j| c(&vals[i], &vals[j])).collect()).collect());
+    json!({"items": items, "eq": eq, "ord": ord})
+}
+
+fn ord_of<T: Ord>(a: &T, b: &T) -> i8 {
+    match a.cmp(b) {
+        std::cmp::Ordering::Less => -1,
+        std::cmp::Ordering::Equal => 0,
+        std::cmp::Ordering::Greater => 1,
+    }
+}
+
+macro_rules! se {
+    ($strings:expr, $ty:ty) => {
+        conv::<$ty>($strings, |x| <$ty>::from(x), |v| { let r: &str = v.as_ref(); r.to_owned() }, None)
+    };
+    ($strings:expr, $ty:ty, ord) => {
+        conv::<$ty>($strings, |x| <$ty>::from(x), |v| { let r: &str = v.as_ref(); r.to_owned() }, Some(&ord_of::<$ty>))
+    };
+}
+
+macro_rules! et {
+    ($strings:expr, $ty:ty) => {
+        conv::<$ty>($strings, |x| <$ty>::from(x), |v| v.to_string(), Some(&ord_of::<$ty>))
+    };
+}
+
+/// Listed unit variants of an enum: what each one prints / serializes to, and whether converting
+/// that string back gives the same variant.
+macro_rules! variants {
+    ($ty:ty; $($v:ident),+) => {{
+        #[allow(deprecated)]
+        let vs: Vec<(&str, $ty)> = vec![$((stringify!($v), <$ty>::$v)),+];
+        Value::Array(vs.iter().map(|(name, v)| {
+            let st: &str = v.as_ref();
+            json!({
+                "variant": name, "as_str": st, "display": v.to_string(),
+                "json": serde_json::to_string(v).unwrap_or_default(),
+                "from_eq": <$ty>::from(st) == *v,
+                "de_eq": serde_json::from_str::<$ty>(&serde_json::to_string(st).unwrap()).map(|d| d == *v).unwrap_or(false),
+            })
+        }).collect())
+    }};
+}
+
+fn enum_conv(cmd: &Value) -> OpResult {
+    use ruma_common as c;
+    use ruma_events as e;
+    let name = s(cmd, "enum")?;
+    let strings: Vec<String> = cmd
+        .get("strings")
+        .and_then(Value::as_array)
+        .ok_or("harness: strings")?
+        .iter()
+        .filter_map(|v| v.as_str().map(str::to_owned))
+        .collect();
+    let st = &strings[..];
+    let mut out = match name {
+        "MembershipState" => se!(st, e::room::member::MembershipState),
+        "StateResJoinRule" => se!(st, ruma_state_res::events::JoinRule),
+        "HistoryVisibility" => se!(st, e::room::history_visibility::HistoryVisibility),
+        "GuestAccess" => se!(st, e::room::guest_access::GuestAccess),
+        "MessageFormat" => se!(st, e::room::message::MessageFormat),
+        "RelationType" => se!(st, e::relation::RelationType),
+        "ReceiptType" => se!(st, e::receipt::ReceiptType, ord),
+        "VerificationMethod" => se!(st, e::key::verification::VerificationMethod),
+        "HashAlgorithm" => se!(st, e::key::verification::HashAlgorithm),
+        "KeyAgreementProtocol" => se!(st, e::key::verification::KeyAgreementProtocol),
+        "MessageAuthenticationCode" => se!(st, e::key::verification::MessageAuthenticationCode),
+        "ShortAuthenticationString" => se!(st, e::key::verification::ShortAuthenticationString),
+        "CancelCode" => se!(st, e::key::verification::cancel::CancelCode),
+        "RoomKeyRequestAction" => se!(st, e::room_key_request::Action),
+        "SecretName" => se!(st, e::secret::request::SecretName),
+        "PolicyRecommendation" => se!(st, e::policy::rule::Recommendation),
+        "CallHangupReason" => se!(st, e::call::hangup::Reason),
+        "ServerNoticeType" => se!(st, e::room::message::ServerNoticeType),
+        "LimitType" => se!(st, e::room::message::LimitType),
+        "PresenceState" => se!(st, c::presence::PresenceState),
+        "PushFormat" => se!(st, c::push::PushFormat),
+        "RuleKind" => se!(st, c::push::RuleKind, ord),
+        "PredefinedOverrideRuleId" => se!(st, c::push::PredefinedOverrideRuleId),
+        "PredefinedUnderrideRuleId" => se!(st, c::push::PredefinedUnderrideRuleId),
+        "PredefinedContentRuleId" => se!(st, c::push::PredefinedContentRuleId),
+        "RoomType" => se!(st, c::room::RoomType),
+        "Medium" => se!(st, c::thirdparty::Medium),
+        "MediaMethod" => se!(st, c::media::Method, ord),
+        "PublicRoomJoinRule" => se!(st, c::directory::PublicRoomJoinRule),
+        "SpaceRoomJoinRule" => se!(st, c::space::SpaceRoomJoinRule),
+        "KeyUsage" => se!(st, c::encryption::KeyUsage),
+        "TokenType" => se!(st, c::authentication::TokenType),
+        "DeviceKeyAlgorithm" => se!(st, c::DeviceKeyAlgorithm, ord),
+        "SigningKeyAlgorithm" => se!(st, c::SigningKeyAlgorithm, ord),
+        "EventEncryptionAlgorithm" => se!(st, c::EventEncryptionAlgorithm, ord),
+        "KeyDerivationAlgorithm" => se!(st, c::KeyDerivationAlgorithm, ord),
+        "OneTimeKeyAlgorithm" => se!(st, c::OneTimeKeyAlgorithm, ord),
+        "TimelineEventType" => et!(st, e::TimelineEventType),
+        "StateEventType" => et!(st, e::StateEventType),
+        "MessageLikeEventType" => et!(st, e::MessageLikeEventType),
+        "EphemeralRoomEventType" => et!(st, e::EphemeralRoomEventType),
+        "RoomAccountDataEventType" => et!(st, e::RoomAccountDataEventType),
+        "GlobalAccountDataEventType" => et!(st, e::GlobalAccountDataEventType),
+        "ToDeviceEventType" => et!(st, e::ToDeviceEventType),
+        _ => return Err(format!("harness: unknown enum {name}")),
+    };
+    let vars = match name {
+        "MembershipState" => Some(variants!(e::room::member::MembershipState; Ban, Invite, Join, Knock, Leave)),
+        "StateResJoinRule" => Some(variants!(ruma_state_res::events::JoinRule; Public, Invite, Knock, Restricted, KnockRestricted)),
+        "HistoryVisibility" => Some(variants!(e::room::history_visibility::HistoryVisibility; Invited, Joined, Shared, WorldReadable)),
+        "GuestAccess" => Some(variants!(e::room::guest_access::GuestAccess; CanJoin, Forbidden)),
+        "MessageFormat" => Some(variants!(e::room::message::MessageFormat; Html)),
+        "RelationType" => Some(variants!(e::relation::RelationType; Annotation, Replacement, Thread, Reference)),
+        "ReceiptType" => Some(variants!(e::receipt::ReceiptType; Read, ReadPrivate)),
+        "VerificationMethod" => Some(variants!(e::key::verification::VerificationMethod; SasV1, QrCodeScanV1, QrCodeShowV1, ReciprocateV1)),
+        "KeyAgreementProtocol" => Some(variants!(e::key::verification::KeyAgreementProtocol; Curve25519, Curve25519HkdfSha256)),
+        "MessageAuthenticationCode" => Some(variants!(e::key::verification::MessageAuthenticationCode; HkdfHmacSha256, HkdfHmacSha256V2, HmacSha256)),
+        "ShortAuthenticationString" => Some(variants!(e::key::verification::ShortAuthenticationString; Decimal, Emoji)),
+        "PresenceState" => Some(variants!(c::presence::PresenceState; Offline, Online, Unavailable)),
+        "PushFormat" => Some(variants!(c::push::PushFormat; EventIdOnly)),
+        "RuleKind" => Some(variants!(c::push::RuleKind; Override, Underride, Sender, Room, Content)),
+        "RoomType" => Some(variants!(c::room::RoomType; Space)),
+        "Medium" => Some(variants!(c::thirdparty::Medium; Email, Msisdn)),
+        "MediaMethod" => Some(variants!(c::media::Method; Crop, Scale)),
+        "SpaceRoomJoinRule" => Some(variants!(c::space::SpaceRoomJoinRule; Invite, Knock, Private, Restricted, KnockRestricted, Public)),
+        "DeviceKeyAlgorithm" => Some(variants!(c::DeviceKeyAlgorithm; Ed25519, Curve25519)),
+        "SigningKeyAlgorithm" => Some(variants!(c::SigningKeyAlgorithm; Ed25519)),
+        "EventEncryptionAlgorithm" => Some(variants!(c::EventEncryptionAlgorithm; OlmV1Curve25519AesSha2, MegolmV1AesSha2)),
+        "KeyDerivationAlgorithm" => Some(variants!(c::KeyDerivationAlgorithm; Pbkfd2)),
+        "OneTimeKeyAlgorithm" => Some(variants!(c::OneTimeKeyAlgorithm; SignedCurve25519)),
+        _ => None,
+    };
+    out["variants"] = vars.unwrap_or(Value::Null);
+    Ok(out)
+}
+
+pub fn dispatch(op: &str, cmd: &Value) -> Option<OpResult> {
+    Some(match op {
+        "enum_conv" => enum_conv(cmd),
+        _ => return None,
+    })
 }
